@@ -52,6 +52,7 @@ const (
 	cSrvClose    = 9
 	cLsnClose    = 10
 	cReplaceOK   = 20
+	cProxyClose  = 30
 	cReplaceFail = 21
 
 	stCanRecv   = 1 << 0
@@ -972,6 +973,221 @@ func runReplaceStorm(k int, sc Scn, r *vh.Rand) (res Res) {
 	return res
 }
 
+// runProxy: a client Session that owns a Proxy, a second client registered through that Proxy
+// (optionally in channel mode), then the owning Session (code 1), the Proxy (code 30) or the
+// context (code 3) is closed.  The proxied connection is served by library goroutines: a panic
+// there kills the child.
+func runProxy(k int, sc Scn, r *vh.Rand) (res Res) {
+	res.K, res.Returned, res.Extra = k, true, map[string]int{}
+	fail := func(what, key string) { res.Fails = append(res.Fails, failRec{what, key}) }
+	base := runtime.NumGoroutine()
+	sleep := time.Duration(sc.SleepMs) * time.Millisecond
+	srv := c2.NewServer(logx.NOP)
+	srv.Keys.Fill()
+	l, err := srv.Listen("c16x", "127.0.0.1:0", cfg.Static{L: com.TCP})
+	if err != nil {
+		panic("listen: " + err.Error())
+	}
+	ctx, cancel := context.WithCancel(context.Background())
+	old := local.UUID
+	local.UUID = newID(r)
+	a, err := c2.ConnectContext(ctx, logx.NOP, cfg.Static{C: com.TCP, H: l.Address(), S: sleep})
+	idA := local.UUID
+	if err != nil {
+		panic("connect: " + err.Error())
+	}
+	px, err := a.NewProxy("px", "127.0.0.1:0", cfg.Static{L: com.TCP})
+	if err != nil {
+		panic("proxy: " + err.Error())
+	}
+	local.UUID = newID(r)
+	b, err := c2.Connect(logx.NOP, cfg.Static{C: com.TCP, H: px.Address(), S: sleep})
+	idB := local.UUID
+	local.UUID = old
+	if err != nil {
+		res.Obs = append(res.Obs, "the proxied client could not register through the Proxy: "+err.Error())
+	}
+	var sb *c2.Session
+	for i := 0; i < 500 && sb == nil && b != nil; i++ {
+		if sb = srv.Session(idB); sb == nil {
+			time.Sleep(time.Millisecond)
+		}
+	}
+	if b != nil && sb == nil {
+		res.Obs = append(res.Obs, "the server never listed the proxied client")
+	}
+	if sc.Chm && b != nil {
+		b.SetChannel(true)
+		ok := false
+		for i := 0; i < 800 && !ok; i++ {
+			time.Sleep(time.Millisecond)
+			ok = c2.VerifC16State(b)&(1<<8) != 0
+		}
+		if !ok {
+			res.Obs = append(res.Obs, "the proxied client did not reach channel mode within 800 ms")
+		}
+		time.Sleep(3 * sleep)
+	}
+	_ = idA
+	for pi, ph := range sc.Phases {
+		var wg sync.WaitGroup
+		for _, code := range ph {
+			wg.Add(1)
+			go func(code int) {
+				defer wg.Done()
+				switch code {
+				case cClientClose:
+					a.Close()
+				case cCtxCancel:
+					cancel()
+				case cProxyClose:
+					px.Close()
+				}
+			}(code)
+		}
+		done := make(chan struct{})
+		go func() { wg.Wait(); close(done) }()
+		if !waitCh(done, 3*time.Second) {
+			res.Returned = false
+			fail(fmt.Sprintf("a close call of phase %d %v on a Session with a Proxy did not return within 3 s", pi, ph), "proxy-close-hang")
+			break
+		}
+		time.Sleep(time.Duration(30*sc.SleepMs) * time.Millisecond)
+	}
+	closedA := false
+	for _, ph := range sc.Phases {
+		for _, code := range ph {
+			if code == cClientClose || code == cCtxCancel {
+				closedA = true
+			}
+		}
+	}
+	if res.Returned && closedA {
+		if !waitCh(a.Done(), time.Second) {
+			fail("Session.Wait/Done of the Session that owns the Proxy was not released after its close", "proxy-owner-wait")
+		}
+		if !waitCh(px.Done(), time.Second) {
+			fail("Proxy.Wait/Done was not released after the owning Session closed", "proxy-wait")
+		}
+	}
+	cancel()
+	cl := make(chan struct{})
+	go func() {
+		a.Close()
+		if b != nil {
+			b.Close()
+		}
+		l.Close()
+		srv.Close()
+		close(cl)
+	}()
+	if !waitCh(cl, 5*time.Second) {
+		fail("clean-up after the Proxy scenario did not return within 5 s", "proxy-cleanup-hang")
+		res.Returned = false
+	}
+	if n := settleGoroutines(base, 2*time.Second); n > base && res.Returned {
+		fail(fmt.Sprintf("goroutines did not return to the baseline after the Proxy scenario: %d > %d", n, base), "goroutine-baseline-proxy")
+	}
+	return res
+}
+
+// runBurst: many server-side Sessions receive their client's shutdown notice at the same time
+// while the operator's Shutdown callback keeps the event thread busy for a moment: more than
+// the 64 removal requests that delSession buffers are pending.  Every Session must end up
+// closed, released and unlisted.
+func runBurst(k int, sc Scn, r *vh.Rand) (res Res) {
+	res.K, res.Returned, res.Extra = k, true, map[string]int{}
+	base := runtime.NumGoroutine()
+	srv := c2.NewServer(logx.NOP)
+	srv.Keys.Fill()
+	var slow uint32
+	srv.Shutdown = func(*c2.Session) {
+		if atomic.AddUint32(&slow, 1) == 1 {
+			time.Sleep(400 * time.Millisecond) // a slow operator callback, once
+		}
+	}
+	l, err := srv.Listen("c16b", "127.0.0.1:0", cfg.Static{L: com.TCP})
+	if err != nil {
+		panic("listen: " + err.Error())
+	}
+	var (
+		sess   []*c2.Session
+		wg     sync.WaitGroup
+		start  = make(chan struct{})
+		mu     sync.Mutex
+		panics int
+	)
+	for i := 0; i < sc.Pairs; i++ {
+		sess = append(sess, c2.VerifC16ServerSession(l, newID(r)))
+	}
+	for _, s := range sess {
+		wg.Add(1)
+		go func(s *c2.Session) {
+			defer wg.Done()
+			defer func() {
+				if x := recover(); x != nil {
+					mu.Lock()
+					panics++
+					if res.PanicMsg == "" {
+						res.PanicMsg = fmt.Sprint(x)
+					}
+					mu.Unlock()
+				}
+			}()
+			<-start
+			c2.VerifC16ReceiveSingle(s, &com.Packet{ID: c2.SvShutdown, Device: s.ID})
+		}(s)
+	}
+	close(start)
+	done := make(chan struct{})
+	go func() { wg.Wait(); close(done) }()
+	if !waitCh(done, 10*time.Second) {
+		res.Returned = false
+		res.Fails = append(res.Fails, failRec{fmt.Sprintf("the handlers of %d simultaneous shutdown notices did not all return within 10 s", sc.Pairs), "burst-hang"})
+	}
+	if panics > 0 {
+		res.Panic = true
+		res.Fails = append(res.Fails, failRec{fmt.Sprintf("%d handler(s) of simultaneous shutdown notices panicked: %s", panics, res.PanicMsg), "burst-panic"})
+	}
+	listed, open := 0, 0
+	if res.Returned {
+		end := time.Now().Add(5 * time.Second)
+		for len(srv.Sessions()) > 0 && time.Now().Before(end) {
+			time.Sleep(5 * time.Millisecond)
+		}
+		for _, s := range sess {
+			if c2.VerifC16Listed(srv, s) {
+				listed++
+				c2.VerifC16Forget(srv, s)
+			}
+			select {
+			case <-s.Done():
+			default:
+				open++
+			}
+		}
+	}
+	res.Extra["burst-sessions"] = sc.Pairs
+	res.Extra["burst-still-listed"] = listed
+	if listed > 0 {
+		res.Fails = append(res.Fails, failRec{fmt.Sprintf("%d of %d Sessions closed by simultaneous shutdown notices are still listed 5 s later (the event thread was busy in a Shutdown callback for 400 ms)", listed, sc.Pairs), "burst-still-listed"})
+	}
+	if open > 0 {
+		res.Fails = append(res.Fails, failRec{fmt.Sprintf("%d of %d Sessions were not closed / released by their shutdown notice", open, sc.Pairs), "burst-not-closed"})
+	}
+	res.AllClosed = listed == 0 && open == 0
+	cl := make(chan struct{})
+	go func() { l.Close(); srv.Close(); close(cl) }()
+	if !waitCh(cl, 3*time.Second) {
+		res.Returned = false
+		res.Fails = append(res.Fails, failRec{"burst clean-up did not return", "cleanup-hang"})
+	}
+	if g := settleGoroutines(base, 2*time.Second); g > base && res.Returned {
+		res.Fails = append(res.Fails, failRec{fmt.Sprintf("goroutines did not return to the baseline after the burst: %d > %d", g, base), "goroutine-baseline-burst"})
+	}
+	return res
+}
+
 // ---------------------------------------------------------------- scenario generation
 
 var instants = []string{"registered", "idle", "queued-client", "queued-server", "queued-both", "fragments", "mid-exchange"}
@@ -1014,6 +1230,7 @@ func gen(r *vh.Rand, tier string) []Scn {
 	add(Scn{Kind: "stress", Variant: "quad", Pairs: 1000})
 	add(Scn{Kind: "stress", Variant: "close-vs-shutdown", Pairs: 5000})
 	add(Scn{Kind: "stress", Variant: "chanwake", Pairs: 3000})
+	add(Scn{Kind: "stress", Variant: "burst", Pairs: 100})
 	rr := 400
 	if tier == "thorough" {
 		rr = 6000
@@ -1044,6 +1261,11 @@ func gen(r *vh.Rand, tier string) []Scn {
 		s2 := rp([]int{cReplaceFail, cLsnClose})
 		s2.DelayUs = []int{r.Intn(200), r.Intn(200)}
 		add(s2)
+	}
+	for _, chm := range []bool{true, false} {
+		add(Scn{Kind: "proxy", Instant: "proxy", Chm: chm, Cbk: true, Phases: [][]int{{cClientClose}}})
+		add(Scn{Kind: "proxy", Instant: "proxy", Chm: chm, Cbk: true, Phases: [][]int{{cProxyClose}, {cClientClose}}})
+		add(Scn{Kind: "proxy", Instant: "proxy", Chm: chm, Cbk: true, Phases: [][]int{{cCtxCancel}}})
 	}
 	add(Scn{Kind: "replace-storm", Instant: "listener", Pairs: 40})
 	add(Scn{Kind: "fresh", Variant: "never-listened", Phases: [][]int{{cSrvClose}}})
@@ -1184,7 +1406,9 @@ func childMain(file string, from int, seed uint64) {
 		w.Flush()
 		r := vh.NewRand(seed ^ uint64(k+1)*0x9E3779B97F4A7C15)
 		var res Res
-		if scs[k].Kind == "stress" {
+		if scs[k].Kind == "stress" && scs[k].Variant == "burst" {
+			res = runBurst(k, scs[k], r)
+		} else if scs[k].Kind == "stress" {
 			res = runStress(k, scs[k], r)
 		} else if scs[k].Kind == "remove-race" {
 			res = runRemoveRace(k, scs[k], r)
@@ -1192,6 +1416,8 @@ func childMain(file string, from int, seed uint64) {
 			res = runFresh(k, scs[k], r)
 		} else if scs[k].Kind == "replace" {
 			res = runReplace(k, scs[k], r)
+		} else if scs[k].Kind == "proxy" {
+			res = runProxy(k, scs[k], r)
 		} else if scs[k].Kind == "replace-storm" {
 			res = runReplaceStorm(k, scs[k], r)
 		} else {
@@ -1391,7 +1617,7 @@ func main() {
 			return true
 		}() {
 			out.Add(fmt.Sprintf("CLsn %s %s %s %s", phasesCoq(sc.Phases), coqBool(res.Panic), coqBool(res.Returned), vh.ZList64(res.Final)), classOf(sc), nontrivial, desc)
-		} else if sc.Kind == "stress" && res.Returned && sc.Variant != "chanwake" {
+		} else if sc.Kind == "stress" && res.Returned && sc.Variant != "chanwake" && sc.Variant != "burst" {
 			// the model runs one racing group (the calls of the variant) under the round-robin schedule
 			calls := map[string][]int64{"pair": {7, 7}, "quad": {7, 7, 7, 7}, "close-vs-shutdown": {7, 4}}[sc.Variant]
 			desc["all_closed"] = res.AllClosed
